@@ -54,6 +54,7 @@ fn main() {
         "C17" => run_prop(c17::C17, tier, seed, replay),
         "C04" => run_prop(c04::C04, tier, seed, replay),
         "C05" => run_prop(c05::C05, tier, seed, replay),
+        "C06" => run_prop(c06::C06, tier, seed, replay),
         "C12" => run_prop(c12::C12, tier, seed, replay),
         "C16" => run_prop(c16::C16, tier, seed, replay),
         _ => {
